@@ -5,7 +5,7 @@
 From Coq Require Import ZArith QArith List Bool Arith Lia.
 From PV Require C12.Model.
 From PV Require Import C09.Model C09.Spec C14.Model C14.Spec C14.Proofs1 C14.Proofs2 C14.Proofs3 C14.Proofs4
-                       C14.Proofs5 C14.Proofs6 C14.Proofs7 C14.Proofs8.
+                       C14.Proofs5 C14.Proofs6 C14.Proofs7 C14.Proofs8 C14.Proofs9.
 Import ListNotations.
 Open Scope Z_scope.
 
@@ -68,27 +68,50 @@ Theorem C14_amp_factor : forall tinds cinds x (f : Q) r y1 yf,
 Proof. exact factor_thm. Qed.
 Print Assumptions C14_amp_factor.
 
-(* clusters.depths[n] = y coordinate of the peak channel of cluster waveform n (= clusters.channels[n]), NaN for
-   the ids alf.py marks (model_nan_idx, characterised by C14_nan_ids) *)
+(* clusters.depths[n] = y coordinate of the peak channel of cluster waveform n (= clusters.channels[n]) for every id
+   that some spike carries, NaN for every id of range(n_clusters) that no spike carries -- curated or not.
+   Loaded_ncl x: when some spike changed cluster, n_clusters = max(spike_clusters) + 1 (what _load_data sets;
+   C08_merge_map_loaded); nothing is assumed of an uncurated dataset beyond the exporter's own asserts. *)
 Theorem C14_cluster_depths : forall tinds cinds x f r y, export_with tinds cinds x f r = Some y ->
+  Loaded_ncl x ->
+  length (y_cdepths y) = length (x_cdata x) /\ length (y_cpeak y) = length (x_cdata x) /\
+  forall n t, nth_error (x_cdata x) n = Some t ->
+    exists c, IsPeakChannel (entry t) (length t) (length (x_wmi x)) c /\
+              nth_error (y_cpeak y) n = Some (Z.of_nat c) /\
+              (In (Z.of_nat n) (x_sc x) -> nth_error (y_cdepths y) n = Some (Some (inject_Z (posy (x_pos x) c)))) /\
+              (~ In (Z.of_nat n) (x_sc x) -> nth_error (y_cdepths y) n = Some None).
+Proof. exact cluster_depths_spikes_thm. Qed.
+Print Assumptions C14_cluster_depths.
+
+(* the same on the ids alf.py marks (model.nan_idx as _load_data leaves it), with no hypothesis on n_clusters *)
+Theorem C14_cluster_depths_marked : forall tinds cinds x f r y, export_with tinds cinds x f r = Some y ->
   length (y_cdepths y) = length (x_cdata x) /\ length (y_cpeak y) = length (x_cdata x) /\
   forall n t, nth_error (x_cdata x) n = Some t ->
     exists c, IsPeakChannel (entry t) (length t) (length (x_wmi x)) c /\
               nth_error (y_cpeak y) n = Some (Z.of_nat c) /\
               nth_error (y_cdepths y) n =
-              Some (if memZ (Z.of_nat n) (model_nan_idx (x_st x) (x_sc x)) then None
+              Some (if memZ (Z.of_nat n) (model_nan_idx (x_ncl x) (x_st x) (x_sc x)) then None
                     else Some (inject_Z (posy (x_pos x) c))).
 Proof. exact cluster_depths_thm. Qed.
-Print Assumptions C14_cluster_depths.
+Print Assumptions C14_cluster_depths_marked.
 
-(* the ids set to NaN (get_merge_map's nan_idx, transcribed with its dictionary and loops): when some spike
-   changed cluster, exactly the ids 0 .. max(spike_clusters) that no spike carries; when none did (the cluster
-   waveforms are then the template waveforms, which exist for ids without spikes too), none *)
-Theorem C14_nan_ids : forall st sc, length sc = length st -> (forall s, In s sc -> 0 <= s) ->
-  (sc = st -> model_nan_idx st sc = []) /\
-  (sc <> st -> forall c, In c (model_nan_idx st sc) <-> 0 <= c <= lmax sc /\ ~ In c sc).
+(* the ids set to NaN = model.nan_idx: get_merge_map's nan_idx (transcribed with its dictionary and loops) when some
+   spike changed cluster -- exactly the ids 0 .. max(spike_clusters) that no spike carries; np.setdiff1d(np.arange(
+   n_clusters), spike_clusters) when none did (repaired, fix-c14b) -- exactly the ids of range(n_clusters) that no spike
+   carries; hence, with the n_clusters the loader sets, in BOTH cases exactly the ids of range(n_clusters) without spikes *)
+Theorem C14_nan_ids : forall ncl st sc, length sc = length st -> (forall s, In s sc -> 0 <= s) ->
+  (sc = st -> forall c, In c (model_nan_idx ncl st sc) <-> 0 <= c < ncl /\ ~ In c sc) /\
+  (sc <> st -> forall c, In c (model_nan_idx ncl st sc) <-> 0 <= c <= lmax sc /\ ~ In c sc) /\
+  ((sc <> st -> ncl = lmax sc + 1) ->
+   forall c, In c (model_nan_idx ncl st sc) <-> 0 <= c < ncl /\ ~ In c sc).
 Proof. exact model_nan_idx_thm. Qed.
 Print Assumptions C14_nan_ids.
+
+(* why the repair was needed: before it an uncurated dataset marked nothing, although id 2 of 0..3 has no spike *)
+Theorem C14_nan_ids_old_refuted : exists ncl st sc,
+  sc = st /\ model_nan_idx_old st sc = [] /\ model_nan_idx ncl st sc = [2] /\ ~ In 2 sc /\ 0 <= 2 < ncl.
+Proof. exact setdiff_arange_old_differs. Qed.
+Print Assumptions C14_nan_ids_old_refuted.
 
 (* spikes.depths: with a feature row per spike, C09's feature-weighted depth (depth * sum w = sum y * w,
    NaN iff sum w = 0); without features, or with features for a subset of the spikes, the depth of the
@@ -108,20 +131,35 @@ Theorem C14_spike_depths : forall tinds cinds x f r y, export_with tinds cinds x
 Proof. exact spike_depths_thm. Qed.
 Print Assumptions C14_spike_depths.
 
-(* clusters.peakToTrough[n] = (first arg-max - first arg-min over the samples of the peak channel) / rate * 1000,
-   NaN for the marked ids *)
+(* clusters.peakToTrough[n] = (first arg-max - first arg-min over the samples of the peak channel) / rate * 1000 for
+   every id that some spike carries, NaN for every id of range(n_clusters) that no spike carries -- curated or not *)
 Theorem C14_durations : forall tinds cinds x f (rate : Q) y, ~ (rate == 0)%Q ->
+  export_with tinds cinds x f (Some rate) = Some y -> Loaded_ncl x ->
+  length (y_p2t y) = length (x_cdata x) /\
+  forall n t, nth_error (x_cdata x) n = Some t ->
+    (~ In (Z.of_nat n) (x_sc x) -> nth_error (y_p2t y) n = Some None) /\
+    (In (Z.of_nat n) (x_sc x) ->
+     exists c imax imin q, IsPeakChannel (entry t) (length t) (length (x_wmi x)) c /\
+       IsArgmaxFirst imax (column (entry t) (length t) c) /\
+       IsArgminFirst imin (column (entry t) (length t) c) /\
+       nth_error (y_p2t y) n = Some (Some q) /\
+       (q == inject_Z (Z.of_nat imax - Z.of_nat imin) / rate * inject_Z 1000)%Q).
+Proof. exact durations_spikes_thm. Qed.
+Print Assumptions C14_durations.
+
+(* the same on the marked ids, with no hypothesis on n_clusters *)
+Theorem C14_durations_marked : forall tinds cinds x f (rate : Q) y, ~ (rate == 0)%Q ->
   export_with tinds cinds x f (Some rate) = Some y ->
   length (y_p2t y) = length (x_cdata x) /\
   forall n t, nth_error (x_cdata x) n = Some t ->
-    if memZ (Z.of_nat n) (model_nan_idx (x_st x) (x_sc x)) then nth_error (y_p2t y) n = Some None
+    if memZ (Z.of_nat n) (model_nan_idx (x_ncl x) (x_st x) (x_sc x)) then nth_error (y_p2t y) n = Some None
     else exists c imax imin q, IsPeakChannel (entry t) (length t) (length (x_wmi x)) c /\
            IsArgmaxFirst imax (column (entry t) (length t) c) /\
            IsArgminFirst imin (column (entry t) (length t) c) /\
            nth_error (y_p2t y) n = Some (Some q) /\
            (q == inject_Z (Z.of_nat imax - Z.of_nat imin) / rate * inject_Z 1000)%Q.
 Proof. exact durations_thm14. Qed.
-Print Assumptions C14_durations.
+Print Assumptions C14_durations_marked.
 
 (* Raw indices: make_channel_objects (repaired) applied to what Merger.write_channel_data (C12's model
    channel_data) wrote for the probe channel maps cms -- ANY number of probes, any integer maps -- gives back the
@@ -199,8 +237,24 @@ Example C14_ex_waveform :      (* template 0 on its listed channels [1; 0; 2; 3]
   option_map (fun y => map (map qred) (nth 0 (y_twave y) [])) ex_y =
   Some [[Some 60; Some 0; Some 0; Some 0]; [Some (-45 # 2); Some 0; Some (15 # 2); Some 0]]%Q.
 Proof. vm_compute. reflexivity. Qed.
-Example C14_ex_nan_ids : model_nan_idx (x_st ex_x) (x_sc ex_x) = [2; 3].
-Proof. vm_compute. reflexivity. Qed.
+Example C14_ex_nan_ids : model_nan_idx (x_ncl ex_x) (x_st ex_x) (x_sc ex_x) = [2; 3] /\ Loaded_ncl ex_x.
+Proof. split; [vm_compute; reflexivity|]. intros _. reflexivity. Qed.
+(* the UNCURATED counterpart: 4 templates, spikes on templates 0, 1 and 3 only (no spike_clusters file): id 2 has
+   NaN depth, duration and amplitude; the ids with spikes keep the values of their template *)
+Definition ex_u : alf_in := mk_alf_in
+  [ [[0; 4; 0; 0]; [0; -2; 1; 0]] ; [[3; 0; 0; 0]; [-3; 1; 0; 0]] ; [[0; 0; 6; 0]; [0; 0; -6; 0]] ; [[0; 0; 0; 5]; [0; 0; 0; -1]] ]
+  [ [[0; 4; 0; 0]; [0; -2; 1; 0]] ; [[3; 0; 0; 0]; [-3; 1; 0; 0]] ; [[0; 0; 6; 0]; [0; 0; -6; 0]] ; [[0; 0; 0; 5]; [0; 0; 0; -1]] ]
+  [[1; 0; 0; 0]; [0; 2; 0; 0]; [0; 1; 1; 0]; [0; 0; 0; 1]]
+  [0; 1; 3; 0] [0; 1; 3; 0] [2; 3; 1; 4] 4 4
+  [0; 0; 0; 1] [[0; 20]; [0; 40]; [0; 60]; [32; 0]] [2; 0; 1; 3]
+  None 4 12.
+Example C14_ex_uncurated :
+  option_map (fun y => (map qred (y_p2t y), map qred (y_cdepths y), map qred (y_camps y), map qred (y_sdepths y)))
+             (export isort_arg ex_u (Some 1%Q) (Some (inject_Z 1000))) =
+  Some ([Some (-1 # 1); Some (-1 # 1); None; Some (-1 # 1)], [Some 40; Some 20; None; Some 0],
+        [Some 33; Some 18; None; Some 6], [Some 40; Some 20; Some 0; Some 40])%Q /\
+  model_nan_idx (x_ncl ex_u) (x_st ex_u) (x_sc ex_u) = [2] /\ Loaded_ncl ex_u /\ x_sc ex_u = x_st ex_u.
+Proof. split; [vm_compute; reflexivity|]. split; [vm_compute; reflexivity|]. split; [intros N; now elim N|reflexivity]. Qed.
 Example C14_ex_three_probes :
   option_map (fun co => (C12.Model.co_map co, C12.Model.co_probe co,
                          raw_ind (C12.Model.co_probe co) (C12.Model.co_map co),
